@@ -140,20 +140,21 @@ func ParsePPSNALUnit(data []byte, spsMap map[uint32]*SPS) (*PPS, error) {
 				} else {
 					nrScalingLists += 6
 				}
-				pps.PicScalingLists = make([]ScalingList, nrScalingLists)
+			}
+			// the six 4x4 lists are present also without transform_8x8_mode_flag (7.3.2.2)
+			pps.PicScalingLists = make([]ScalingList, nrScalingLists)
 
-				for i := 0; i < nrScalingLists; i++ {
-					picScalingPresent := reader.ReadFlag()
-					if !picScalingPresent {
-						pps.PicScalingLists[i] = nil
-						continue
-					}
-					sizeOfScalingList := 16 // 4x4 for i < 6
-					if i >= 6 {
-						sizeOfScalingList = 64 // 8x8 for i >= 6
-					}
-					pps.PicScalingLists[i] = readScalingList(reader, sizeOfScalingList)
+			for i := 0; i < nrScalingLists; i++ {
+				picScalingPresent := reader.ReadFlag()
+				if !picScalingPresent {
+					pps.PicScalingLists[i] = nil
+					continue
 				}
+				sizeOfScalingList := 16 // 4x4 for i < 6
+				if i >= 6 {
+					sizeOfScalingList = 64 // 8x8 for i >= 6
+				}
+				pps.PicScalingLists[i] = readScalingList(reader, sizeOfScalingList)
 			}
 		}
 		pps.SecondChromaQpIndexOffset = reader.ReadSignedGolomb()
